@@ -1486,3 +1486,28 @@ package stackage
 //@ ensures[C10:push.wf] wf(r) && cfgOf(r) == cf
 //@ ensures[C10:push.atomic] (forall k :: 0 <= k && k <= acq(ulen(r)) ==> slot(r, k) == acq(slot(r, k))) && (ulen(r) == acq(ulen(r)) || (ulen(r) == acq(ulen(r)) + 1 && slot(r, ulen(r)) == old(x[0]) && accept(nn, old(x[0])) && (cp == 0 || acq(len(hdr(r))) < cp)))
 //@ modifies Cell_stack[r], Mem_Val, F_nodeConfig_ldr[cfgOf(r)], alloc
+
+// ---------------------------------------------------------------------
+// C12 / C08 (value side): the reflect-based converters themselves, against the thin reflect model
+
+//@ func stackTypeAliasConverter @safe
+//@ tags C12,C08
+//@ safety C08,C12
+//@ ensures[C12:stc.native] is_v_Stack(u) ==> converted && S == stack_of(u)
+//@ ensures[C12:stc.nil] u == nil ==> !converted && S == nil
+//@ ensures[C12:stc.nonzero] converted && !is_v_Stack(u) ==> S != nil
+//@ ensures[C12:stc.zero] !converted ==> S == nil
+//@ modifies nothing
+
+//@ func conditionTypeAliasConverter @safe
+//@ tags C12,C08
+//@ safety C08,C12
+//@ ensures[C12:ctc.native] is_v_Cond(u) ==> converted && C == cond_of(u)
+//@ ensures[C12:ctc.nil] u == nil ==> !converted && C == nil
+//@ ensures[C12:ctc.nonzero] converted && !is_v_Cond(u) ==> C != nil
+//@ ensures[C12:ctc.zero] !converted ==> C == nil
+//@ modifies nothing
+
+//@ func derefPtr
+//@ inline
+//@ loop 1 invariant t0 != nil ==> t != nil
